@@ -15,7 +15,7 @@ from MDAnalysis import Merge, Universe
 from MDAnalysis.coordinates.memory import MemoryReader
 
 from mc.core import Report, viol, collect_samples
-from mc.molecules import write_xyz, quat_to_matrix, generic_quaternions, fibonacci_directions, MOLECULES
+from mc.molecules import write_xyz, file_coords, quat_to_matrix, generic_quaternions, fibonacci_directions, MOLECULES
 
 from molgri.io import OneMoleculeReader
 from molgri.molecules.transitions import AssignmentTool
@@ -32,7 +32,7 @@ def build(case, d):
     G = np.asarray(fg.b_rotations.get_grid_as_array(only_upper=True), dtype=float)
     O = np.asarray(fg.get_position_grid().get_o_grid().get_grid_as_array(), dtype=float)
     r = np.asarray(fg.get_position_grid().get_radii(), dtype=float)
-    p1, p2 = write_xyz("H2O", d), write_xyz(case["mol"], d)
+    p1, p2 = write_xyz(case.get("m1", "H2O"), d), write_xyz(case["mol"], d)
     u1 = OneMoleculeReader(p1).get_molecule()
     u2 = OneMoleculeReader(p2).get_molecule()
     return fg, arr, G, O, r, u1, u2, p2
@@ -40,21 +40,25 @@ def build(case, d):
 
 def run_case(case):
     pre = f"C11|b={case['b']}|o={case['o']}|t={case['t']}|mol={case['mol']}|outliers={case['outliers']}|cart={case['cart']}" + \
-          (f"|shift={case['shift']}" if case.get("shift") else "")
+          (f"|shift={case['shift']}" if case.get("shift") else "") + (f"|m1={case['m1']}" if case.get("m1") else "")
     d = tempfile.mkdtemp(prefix="verif_c11_")
     vs = []
     try:
         fg, arr, G, O, r, u1, u2, p2 = build(case, d)
         n_b, n_o, n_t = len(G), len(O), len(r)
-        raw2 = np.array([a[1:] for a in MOLECULES[case["mol"]]], dtype=float)
+        raw2 = file_coords(case["mol"])
         m2 = u2.atoms.masses.astype(float)
         ref2 = raw2 - (m2[:, None] * raw2).sum(0) / m2.sum()
         ref1 = np.asarray(u1.atoms.positions, dtype=float)
         if case.get("roundtrip"):
             pt = Pseudotrajectory(u1, u2, arr).get_pt_as_universe()
             ref_u = OneMoleculeReader(p2).get_molecule()
-            got = np.asarray(AssignmentTool(arr, pt, ref_u, include_outliers=case["outliers"],
-                                            cartesian_grid=case["cart"]).get_full_assignments(), dtype=float)
+            try:
+                got = np.asarray(AssignmentTool(arr, pt, ref_u, include_outliers=case["outliers"],
+                                                cartesian_grid=case["cart"]).get_full_assignments(), dtype=float)
+            except Exception as e:
+                return {"violations": [viol(pre + "|roundtrip|raises", f"{type(e).__name__}: {str(e)[:120]}", case)],
+                        "frames": 0, "ambiguous": 0}
             want = np.arange(len(arr), dtype=float)
             if got.shape != want.shape or not np.array_equal(got, want):
                 bad = np.nonzero(got != want)[0] if got.shape == want.shape else [0]
@@ -164,6 +168,19 @@ def cases(tier):
         for mol in mols[:2] if tier == "quick" else mols[:3]:
             out.append({"b": b, "o": o, "t": t, "mol": mol, "outliers": False, "cart": True, "roundtrip": True,
                         "n_rot": 0, "n_dir": 0})
+    # first molecule read from a .gro file (carries a 3 nm periodic box) and placements beyond half that box: cells are
+    # defined by the actual relative placement, not by a periodic image
+    far = ("8", "12", "[1.0, 1.5, 2.0]")
+    out.append({"b": far[0], "o": far[1], "t": far[2], "mol": "H2O", "m1": "H2O@gro", "outliers": False, "cart": True,
+                "roundtrip": True, "n_rot": 0, "n_dir": 0})
+    out.append({"b": far[0], "o": far[1], "t": far[2], "mol": "CHFClBr@gro", "m1": "H2O@gro", "outliers": True, "cart": False,
+                "n_rot": 5, "n_dir": 5})
+    # a molecule whose principal axes are defined by its masses only
+    for outliers, cart in ((False, True), (True, False)):
+        out.append({"b": "cube4D_17", "o": "ico_5", "t": "[0.3, 0.5]", "mol": "CX4_ideal", "outliers": outliers, "cart": cart,
+                    "n_rot": n_rot, "n_dir": 5})
+    out.append({"b": "8", "o": "12", "t": "[0.2, 0.3, 0.4]", "mol": "CX4_ideal", "outliers": False, "cart": True, "roundtrip": True,
+                "n_rot": 0, "n_dir": 0})
     return out
 
 
